@@ -203,7 +203,9 @@ class Report:
             "wall_s": round(wall, 2),
             "violations": len(vpaths),
         }
-        with open(os.path.join(EVID, "%s.json" % self.pid), "w") as fh:
+        # runs against a deliberately mutated tree (tools/try_seed.sh) must not overwrite the evidence of the unchanged tree
+        suffix = os.environ.get("VERIF_EVID_SUFFIX", "")
+        with open(os.path.join(EVID, "%s%s.json" % (self.pid, suffix)), "w") as fh:
             json.dump(ev, fh, indent=1, sort_keys=True, default=str)
         if vpaths:
             for w in self.inconclusive[:10]:
